@@ -42,9 +42,9 @@ KV_ASSUME = [
 ]
 
 
-def _kv(pid, text):
+def _kv(pid, text, model_chk=False):
     return {
-        "families": [{"family": "kv", "chk": "kv_chk_" + pid, "corr": "kv_corr_" + pid}],
+        "families": [{"family": "kv", "chk": "kv_chk_" + pid, "corr": "kv_corr_" + pid, "model_chk": model_chk}],
         "level_text": text,
         "level_note": KV_NOTE,
         "assumptions": KV_ASSUME,
@@ -58,6 +58,9 @@ PROPS = {
     "C06": _kv("C06", "Full proof on the model: for every history an insert-style write (Add, AddRaw, WriteCas AddOnly / cas 0, WriteResurrectionWithXattrs) succeeds only on a key without a body and a refusal happens only on a key with a body and leaves it untouched; WriteWithXattrs cas 0 succeeds only on an absent key (C06_holds)."),
     "C07": _kv("C07", "Full proof on the model: an xattr-only write changes exactly the named xattrs and keeps body, datatype and (unless given) expiry; a body-only write to a live document keeps its xattrs; a failed call changes nothing (C07_holds; frame lemmas over apply_xattrs / xattrs_remove for all xattr maps and name lists). Macro expansion values are compared exactly by the correspondence (CAS string and CRC32c computed in Coq)."),
     "C08": _kv("C08", "Sequential part proved in full on the model: every successful CAS-stamping call posts exactly one event equal to the rendering of the document as stored (key, opcode, body, xattrs, datatype bits, CAS, expiry, revision), every failed/refused call and every touch posts none (C08_holds, all histories). CAS order of delivery under concurrent writers is part of the interleaving model (partial)."),
+    "C09": _kv("C09", "Sequential part proved on the model's store: the backfill of a feed started from CAS s is, in CAS order, exactly the current version of every document of the collection (tombstones included) with CAS >= s (C09_complete, C09_sorted, C09_from_start, for every reachable store: C09_tables_ok), each rendered by the same function as live events (C09_same_rendering, C09_live_equals_stored). The executable trace checker (dump feeds from generated start CAS values: 0, a document's CAS, CAS+1, stale, beyond) is evaluated on implementation traces and on the model's traces; that it accepts every model trace is checked by evaluation, not proved. The no-gap half (StartDCPFeed racing writers) is not proved here: partial.", model_chk=True),
+    "C11": _kv("C11", "Proved on the model's store for every reachable store and every entry point: a call addressed to collection c leaves documents, backfill, identity and feeds of every other collection unchanged (C11_frame); DropDataStore removes exactly the collection's rows and entry (C11_drop); re-creation yields a fresh id with no documents (C11_recreate). Views and SQL queries of other collections are covered under C12/C19 models. The executable trace checker is evaluated on implementation and model traces (acceptance of model traces checked by evaluation).", model_chk=True),
+    "C18": _kv("C18", "Proved on Json.v for all documents, paths and values: a sub-document write leaves every property on a diverging path unchanged (C18_frame), the addressed property reads back as the written value (C18_set) or as absent after removal (C18_remove); CAS honoured / failure changes nothing is the C02 theorem (C18_cas). The trace checker restates WriteSubDoc/SubdocInsert/GetSubDocRaw as upsert_path/eval_path over the parsed read-back and is evaluated on implementation and model traces (acceptance of model traces checked by evaluation). The concurrent no-lost-update half is part of the interleaving model: partial.", model_chk=True),
     "C17": _kv("C17", "Full proof on the model: every successful mutation through any entry point raises the key's revision number by exactly one (1 on creation or re-creation after purge), failed calls leave it, and live events carry the stored number (C17_holds, all histories)."),
     "C04": {
         "families": [{"family": "c04"}],
